@@ -29,11 +29,15 @@ def plan(tier, seed):
         cfgs.append(dict(kind="container", cap=cap, init=init, amounts=amounts, depth=d))
     if not quick:
         cfgs.append(dict(kind="container", cap=3, init=1, amounts=[1, 2, 3], depth=d - 1))
+    # amounts far above 2**53: the level is an exact number, not a float
+    cfgs.append(dict(kind="container", cap=2 ** 53 + 1, init=2 ** 53, amounts=[1, 2 ** 53], depth=d - 1))
+    cfgs.append(dict(kind="container", cap=2 ** 54, init=0, amounts=[1, 2 ** 53], depth=d - 1))
     for cap in (1, 2, None):
         cfgs.append(dict(kind="store", cap=cap, depth=d + 1))
         cfgs.append(dict(kind="pstore", cap=cap, depth=d))
     for cap in (1, 2, None):
         cfgs.append(dict(kind="fstore", cap=cap, depth=d - 1 if quick else d))
+    cfgs.append(dict(kind="fstore", cap=2, depth=d - 1, none_item=1))
     for kind in ("container", "store"):
         cfgs.append(dict(kind=kind, script=1, cap=2, n=3))
     # PriorityStore ordering with many distinct priorities: every permutation of k priorities x every put/get interleaving
@@ -77,7 +81,7 @@ class Ref:
                     out.append((content[:k] + content[k + 1:], i))
             return out
         for k, i in enumerate(content):
-            if f == "any" or (f != "never" and i[0] == f):
+            if f == "any" or (f != "never" and i is not None and i[0] == f):
                 return [(content[:k] + content[k + 1:], i)]
         return []
 
@@ -208,7 +212,7 @@ def exec_puppets(ch, cfg, res):
     nrid = [0]
     nitem = [0]
     hist = []
-    FILTERS = {"any": lambda i: True, "a": lambda i: i[0] == "a", "b": lambda i: i[0] == "b", "never": lambda i: False}
+    FILTERS = {"any": lambda i: True, "a": lambda i: i is not None and i[0] == "a", "b": lambda i: i is not None and i[0] == "b", "never": lambda i: False}
 
     def puppet(pid):
         while True:
@@ -337,6 +341,8 @@ def exec_puppets(ch, cfg, res):
             menu += [("put", p, 1), ("put", p, 2), ("get", p, None)]
         else:
             menu += [("put", p, "a"), ("put", p, "b"), ("get", p, "any"), ("get", p, "a"), ("get", p, "b"), ("get", p, "never")]
+            if cfg.get("none_item"):
+                menu.append(("put", p, None))       # None is an item like any other
         menu.append(("cancel", p))
     n = 0
     res.ev("C07.noraise")
@@ -358,6 +364,8 @@ def exec_puppets(ch, cfg, res):
                     if myreq[op[1]] is not None and not seen[op[1]]:
                         opts.append(op)
                 elif seen[op[1]]:
+                    if op[0] == "put" and op[2] is None and None in item_of.values():
+                        continue          # at most one None item per history (items are otherwise unique)
                     opts.append(op)
             c = ch.choose(len(opts) + 1, lambda c: "op %s" % ("end" if c == 0 else (opts[c - 1],)), free=True)
             if c == 0:
@@ -390,6 +398,8 @@ def exec_puppets(ch, cfg, res):
                 isput[rid] = True
                 if kind == "container":
                     amount[rid] = x
+                elif x is None:
+                    item_of[rid] = None
                 else:
                     nitem[0] += 1
                     x = (x, nitem[0])        # unique tag
@@ -426,17 +436,24 @@ def exec_script(ch, cfg, res):
         amt = 1 + ch.choose(2, lambda c, i=i: "process %d amount/priority %d" % (i, c + 1), free=True) if kind == "container" else 1
         at = ch.choose(3, lambda c, i=i: "process %d starts at %d" % (i, c), free=True)
         pat = [0, 1, None][ch.choose(3, lambda c, i=i: "process %d patience %s" % (i, [0, 1, None][c]), free=True)]
-        specs.append((isput, amt, at, pat))
+        style = ch.choose(2, lambda c, i=i: "process %d gives up with %s" % (i, ["req.cancel()", "a with-block around the request"][c]), free=True) if pat is not None else 0
+        specs.append((isput, amt, at, pat, style))
     log = []       # (i, 'granted'|'gave-up', time)
 
     def proc(i, spec):
-        isput, amt, at, pat = spec
+        isput, amt, at, pat, style = spec
         if at:
             yield env.timeout(at)
         if kind == "container":
             req = r.put(amt) if isput else r.get(amt)
         else:
             req = r.put(("item", i)) if isput else r.get()
+        if style == 1:
+            # the idiom from the documentation: leaving the with-block withdraws a request that was not granted
+            with req:
+                yield req | env.timeout(pat)
+            log.append((i, "granted" if req.triggered else "gave-up", env.now))
+            return
         if pat is None:
             yield req
             log.append((i, "granted", env.now))
